@@ -48,12 +48,15 @@ theorem C16_front_end_open_panics :
 /-- what the builder hands to the later stages: no production references `STOP` (so the `STOP` column
 of the table holds no SHIFT: the "at most one SHIFT or ACCEPT per cell" premise of
 `C16_resolution_total` is not broken by the grammar text) and every production kind is a Rust
-identifier (the generator's `format_ident!` on kinds cannot panic) -/
+identifier (the generator's `format_ident!` on kinds cannot panic); no production references the augmented
+nonterminals `AUG`/`AUGL` (on which the table builder does not terminate) -/
 theorem C16_builder_output_safe (f : File) (g : Front.Grammar) (h : build repoVariant f = .ok g) :
     (∀ p, p ∈ g.prods → ∀ a, a ∈ p.rhs → a.sym ≠ .name kSTOP) ∧
-    (∀ p, p ∈ g.prods → ∀ k, p.kind = some k → identOk k = true) :=
+    (∀ p, p ∈ g.prods → ∀ k, p.kind = some k → identOk k = true) ∧
+    (∀ p, p ∈ g.prods → ∀ a, a ∈ p.rhs → a.sym ≠ .name kAUG ∧ a.sym ≠ .name kAUGL) :=
   ⟨Rustemo.Props.C09.C16_no_stop_reference repoVariant f g (by decide) h,
-   Rustemo.Props.C09.C16_kinds_are_identifiers repoVariant f g (by decide) h⟩
+   Rustemo.Props.C09.C16_kinds_are_identifiers repoVariant f g (by decide) h,
+   Rustemo.Props.C09.C16_no_aug_reference repoVariant f g (by decide) h⟩
 
 /-- **Conflict resolution is total** (model of `LRTable::calculate_reductions` for one cell, code as in
 `/repo`): whatever the priorities, associativities, prefer-shift settings and order of reductions,
